@@ -411,6 +411,18 @@ def run(S):
     for where in sites:
         S.fns_used[where_fn[where].name] = where_fn[where].sha
 
+    # ---- the real printer, nothing opaque: every nest() of every document built equals the (symbolic) indent unit --------------
+    from . import conserve, deep
+    from mirsym import models_typst as MT
+    MT.KT = MT.KindTable(S.driver, S.adts)
+    fdeep, covd = conserve.explore(S, want=('C12',), per_kind=40 if S.tier == 'quick' else 600, max_nodes=18 if S.tier == 'quick' else 50, deep=True)
+    fdocs, covdocs = deep.explore(S, want=('C12',))
+    for lab, info in fdeep + fdocs:
+        found.append((lab.split(':', 1)[1], dict(info, site=info.get('kind') or 'document', function='deep')))
+    und = sum(c['shapes'] - c['decided'] for c in covd.values())
+    if und * 20 > sum(c['shapes'] for c in covd.values()):
+        S.inconclusive.append('deep indent check: %d shapes could not be executed (encoder gaps, see evidence)' % und)
+
     # ---- replay: leading blanks under different units ------------------------------------------------------------
     if found:
         w = native_confirm(S)
